@@ -402,7 +402,9 @@ fn gen_op(w: &World, r: &mut Prng, s: &Snap, epoch: &mut i64) -> MOp {
     let owner = idx_of(w, s.owner);
     let x = r.chance(35);
     let any = |r: &mut Prng| rand_party(r);
-    match r.below(100) {
+    let active_ben = s.beneficiary != s.owner && s.available(e) > 0;
+    let roll = if active_ben && r.chance(30) { 44 + r.below(30) } else { r.below(100) };
+    match roll {
         0..=13 => {
             // ChangeOwner
             let pend = s.pending_owner.and_then(|p| idx_of(w, p));
@@ -455,7 +457,7 @@ fn gen_op(w: &World, r: &mut Prng, s: &Snap, epoch: &mut i64) -> MOp {
         44..=73 => {
             // ChangeBeneficiary
             let ben = idx_of(w, s.beneficiary);
-            let exp_choice = |r: &mut Prng| e + *r.pick(&[-1i64, 0, 1, 50, 900, 5000, 100000, 100000, 1000000, 1000000]);
+            let exp_choice = |r: &mut Prng| e + *r.pick(&[-1i64, 0, 1, 900, 5000, 100000, 100000, 1000000, 1000000, 1000000]);
             if let (Some(pt), true) = (&s.pending_term, r.chance(72)) {
                 let nom = idx_of(w, pt.new);
                 let caller = match (r.below(100), ben, nom, owner) {
@@ -498,9 +500,10 @@ fn gen_op(w: &World, r: &mut Prng, s: &Snap, epoch: &mut i64) -> MOp {
             let req = match r.below(100) {
                 0..=29 => r.below(1500) as i128,
                 30..=49 => r.below(200) as i128,
-                50..=64 => avail + r.range(-1, 1) as i128,
-                65..=74 => s.funds + r.range(-1, 1) as i128,
-                75..=84 => 1_000_000_000,
+                50..=59 => avail + r.range(-1, 1) as i128,
+                60..=66 => s.funds + r.range(-1, 1) as i128,
+                67..=71 => 1_000_000_000,
+                72..=84 => 1 + r.below(40) as i128,
                 85..=92 => 0,
                 _ => -1 - r.below(3) as i128,
             };
@@ -829,7 +832,14 @@ fn main() {
     };
     if let Some(p) = &a.replay {
         let v: serde_json::Value = serde_json::from_str(&std::fs::read_to_string(p).unwrap()).unwrap();
-        let mc: MCase = serde_json::from_value(v["case"].clone()).unwrap();
+        // accepted layouts: {"case": ..} (corpus / monitor failure entry) and the replay files
+        // written by ./check ({"violation": {"detail": {"case": ..}}} or {"found": {"detail": ..}})
+        let case = [&v["case"], &v["violation"]["detail"]["case"], &v["found"]["detail"]["case"], &v["detail"]["case"]]
+            .into_iter()
+            .find(|c| !c.is_null())
+            .expect("no `case` in the replay file")
+            .clone();
+        let mc: MCase = serde_json::from_value(case).unwrap();
         let (c, fails) = run_case(&mc, &mut stats, &mut cover, None);
         cw.push(c);
         for f in fails { stats.monitor_fail(f); }
